@@ -1,1 +1,71 @@
-fn main(){}
+//! verif_gen: seed + tier -> grammar corpus -> generated shard crates + runner crate.
+//!
+//!   verif_gen corpus --seed N --tier T --out DIR [--drop id,id] [--release-like]
+//!   verif_gen specs  --file specs.json --out DIR        (explicit grammar list: replay, reduction)
+//!   verif_gen stats  --seed N
+
+mod emit;
+
+use serde_json::{json, Value};
+use std::collections::BTreeSet;
+use std::path::Path;
+use verif_core::common::{Args, Rng};
+use verif_core::corpus::{self, Spec};
+use verif_core::grammargen::*;
+
+fn dropped(args: &Args) -> BTreeSet<String> {
+    args.get("drop").map(|s| s.split(',').filter(|x| !x.is_empty()).map(String::from).collect()).unwrap_or_default()
+}
+
+fn write(out: &Path, specs: &[Spec], args: &Args, extra: Value) {
+    let release_like = args.get("release-like").is_some();
+    let (opt, dbg) = if release_like { (3, false) } else { (0, true) };
+    let infos = emit::write_workspace(out, specs, &dropped(args), opt, dbg);
+    let doc = json!({
+        "specs": specs.iter().map(|s| s.to_json()).collect::<Vec<_>>(),
+        "modules": infos.iter().map(|m| json!({"id": m.id, "rules": m.rules.iter().map(|(n, k)| json!([n, format!("{:?}", k)])).collect::<Vec<_>>()})).collect::<Vec<_>>(),
+        "meta": extra,
+    });
+    std::fs::write(out.join("corpus.json"), serde_json::to_string_pretty(&doc).unwrap()).expect("write corpus.json");
+    println!("verif_gen: {} grammars, {} rules -> {}", infos.len(), infos.iter().map(|m| m.rules.len()).sum::<usize>(), out.display());
+}
+
+fn main() {
+    let args = Args::parse();
+    match args.positional.first().map(|s| s.as_str()) {
+        Some("corpus") => {
+            let out = args.get("out").unwrap_or("/verif/work").to_string();
+            let c = corpus::build(args.seed(), args.tier());
+            let mut feats = std::collections::BTreeMap::new();
+            for s in &c.specs {
+                if let Ok(g) = verif_core::ir::Grammar::parse(&s.text) {
+                    feature_counts(&g, &mut feats);
+                }
+            }
+            write(Path::new(&out), &c.specs, &args, json!({"seed": args.seed() as i64, "tier": args.tier().name(), "candidates": c.stats.candidates, "rejected_by_pest": c.stats.rejected_by_pest, "features": feats, "rejected_samples": c.rejected}));
+        }
+        Some("specs") => {
+            let out = args.get("out").expect("--out").to_string();
+            let txt = std::fs::read_to_string(args.get("file").expect("--file")).expect("read specs");
+            let v: Value = serde_json::from_str(&txt).expect("json");
+            let specs: Vec<Spec> = v.as_array().expect("array of specs").iter().map(Spec::from_json).collect();
+            write(Path::new(&out), &specs, &args, json!({}));
+        }
+        Some("stats") => {
+            let mut rng = Rng::new(args.seed());
+            let mut st = GenStats::default();
+            let mut rej = vec![];
+            let mut feats = std::collections::BTreeMap::new();
+            for i in 0..200 {
+                let p = if i % 4 == 3 { Profile::stack() } else { Profile::general() };
+                let g = valid_grammar(&mut rng, &p, &mut st, &mut rej);
+                feature_counts(&g, &mut feats);
+            }
+            println!("{:?}\n{:#?}", st, feats);
+        }
+        _ => {
+            eprintln!("usage: verif_gen corpus|specs|stats ...");
+            std::process::exit(2);
+        }
+    }
+}
